@@ -30,19 +30,40 @@ RULE = ("cases = (pattern, path, base path, file mode, syntax) tuples: paths fro
         "directory trees (depth <= 3, names with dots, spaces, non-ASCII bytes, glob characters) with ignore patterns derived "
         "from their own names; non-trivial = pattern has a wildcard or a separator and the decision is not the same for the "
         "whole edit group, path has a special component, tree has a nested ignore or an unaccepted file")
-EXPLANATION = ("Lean theorems (all lengths): the backtracking loop of PathMatch::match terminates within matchFuel iterations and equals "
-               "the declarative rule (SpecMatch: glob of the canonical pattern against a part of the canonical path that starts at the "
-               "start / behind a separator and ends at a separator / the end) for every pattern stream without '?*' / '***'; "
-               "PathIterator reads the documented canonical form for every input without inner '//', '..' at the root, open windows "
-               "root or relative escape; lister output = sorted, duplicate-free, exactly accepted and not ignored along the way for "
-               "every directory tree and every matcher. Counterexample theorems for each excluded class are replayed on the real "
-               "code. Tie: in-process correspondence of all modelled functions; extension tables extracted from the source. Outside "
-               "the model: windows build branches (#ifdef _WIN32), symlinks, stat/opendir failures, DT_UNKNOWN, Emacs marker probing, "
-               "the callers in cmdlineparser.cpp / importproject.cpp / suppressions.cpp.")
+EXPLANATION = ("Lean theorems (all lengths, both syntaxes, about the repaired code 4dc0347): the backtracking loop of PathMatch::match "
+               "terminates within matchFuel iterations and decides exactly the declarative rule SpecMatch (glob of the canonical pattern "
+               "against a part of the canonical path that starts at the start / behind a separator and ends at a separator / the end) "
+               "for every pattern (a run of three or more '*' may be read in any way); PathMatch::match as a whole (fast paths, real/relative patterns, directory "
+               "patterns, both iterators) = PathMatchSpec inside the documented domain; PathIterator reads the documented canonical form "
+               "for every root that ends with a separator and, without a root, no '..' above the start; lister output = sorted, "
+               "duplicate-free, exactly accepted and not ignored on the way down for every directory tree, matcher and acceptance test. "
+               "The behaviour before the repair is kept as counterexample theorems (Variant.old). simplifyPath (third-party simplecpp) is "
+               "modelled line by line incl. the size_t wrap-around; idempotence and canonical form are REFUTED by counterexample theorems "
+               "(known finding C31-5), no positive theorem is proved for it (correspondence only). Tie: in-process correspondence of all "
+               "modelled functions, extension tables extracted from lib/path.cpp. Outside the model: windows build branches "
+               "(#ifdef _WIN32), symlinks, stat/opendir failures, DT_UNKNOWN, Emacs marker probing, the callers in "
+               "cmdlineparser.cpp / importproject.cpp / suppressions.cpp.")
 THEOREMS = [
+    "Cppcheck.PathMatch.match_terminates",
+    "Cppcheck.PathMatch.pathmatch_eq_spec",
+    "Cppcheck.PathMatch.pathmatch_eq_spec_before_repair",
+    "Cppcheck.PathMatch.pathmatch_sound",
+    "Cppcheck.PathMatch.pathMatch_eq_spec",
+    "Cppcheck.PathMatch.pathMatchSpecB_iff",
+    "Cppcheck.PathMatch.pathmatch_star_counterexample_before_repair",
+    "Cppcheck.PathMatch.pathmatch_dirpattern_counterexample_before_repair",
+    "Cppcheck.PathCanon.pathiter_eq_canon",
     "Cppcheck.PathCanon.pathiter_eq_canon_counterexample_dsep",
     "Cppcheck.PathCanon.pathiter_eq_canon_counterexample_rootdd",
+    "Cppcheck.PathCanon.pathiter_eq_canon_counterexample_relative_escape",
     "Cppcheck.PathCanon.simplifyPath_idempotent_counterexample",
+    "Cppcheck.PathCanon.simplifyPath_eq_canon_counterexample",
+    "Cppcheck.FileLister.lister_exact",
+    "Cppcheck.FileLister.lister_perm",
+    "Cppcheck.FileLister.lister_nodup",
+    "Cppcheck.FileLister.lister_sorted",
+    "Cppcheck.FileLister.lister_no_path",
+    "Cppcheck.FileLister.lister_missing",
 ]
 MODULES = ["Cppcheck.Props.C31"]
 
@@ -250,16 +271,21 @@ def gen_af_cases(rng, n):
     return out
 
 
-TREE_NAMES = [b"a", b"b", b"src", b"lib", b"foo.cpp", b"x.c", b"m.h", b".hid", b"a b", b"caf\xe9.cpp", b"...", b"..a", b"a.", b"A.C",
-              b"Foo.CPP", b"t*.cpp", b"q?.c", b"test1.cpp", b"n.txt", b"README", b"d.c", b"e.cpp", b"sub", b"gen", b"\x01\x7f.cc", b"y.cl", b"z.ixx"]
+FILE_NAMES = [b"foo.cpp", b"x.c", b"d.c", b"e.cpp", b"test1.cpp", b"caf\xe9.cpp", b"A.C", b"Foo.CPP", b"t*.cpp", b"q?.c", b"\x01\x7f.cc", b"y.cl",
+              b"z.ixx", b"a b.cxx", b"..a.c", b"a..c", b"...cpp", b"m.h", b"n.txt", b"README", b"a.", b".hid", b"lib.c++", b"u.tpp", b"w.hpp"]
+DIR_NAMES = [b"a", b"b", b"src", b"lib", b"sub", b"gen", b"a b", b".hid", b"...", b"..a", b"v1.2", b"x.cpp", b"caf\xe9", b"t*", b"build", b"\x02d"]
 
 
-def gen_tree(rng, depth, maxch=4):
-    """list of nodes: ('f', name) | ('d', name, children)"""
-    names = rng.sample(TREE_NAMES, rng.randrange(0, maxch + 1))
-    out = []
-    for nm in names:
-        if depth > 0 and rng.random() < 0.45:
+def gen_tree(rng, depth, maxch=5):
+    """list of nodes: ('f', name) | ('d', name, children); sibling names are distinct"""
+    out, used = [], set()
+    for _ in range(rng.randrange(2 if depth >= 2 else 0, maxch + 2)):
+        isdir = depth > 0 and rng.random() < 0.4
+        nm = rng.choice(DIR_NAMES if isdir else FILE_NAMES)
+        if nm in used:
+            continue
+        used.add(nm)
+        if isdir:
             out.append(("d", nm, gen_tree(rng, depth - 1, maxch)))
         else:
             out.append(("f", nm))
@@ -306,11 +332,11 @@ def gen_ls_case(rng, casedir):
     files = [p for p, k in allp if k == "f"]
     # start path
     r = rng.random()
-    if r < 0.55 and dirs:
-        node = rng.choice(dirs)
-    elif r < 0.7 and files:
+    if r < 0.45 and dirs:
+        node = rng.choice([d for d in dirs if b"/" not in d] or dirs) if rng.random() < 0.6 else rng.choice(dirs)
+    elif r < 0.55 and files:
         node = rng.choice(files)
-    elif r < 0.85:
+    elif r < 0.93:
         node = b""
     else:
         node = None
@@ -342,7 +368,8 @@ def gen_ls_case(rng, casedir):
         if not allp:
             ign.append(rng.choice([b"src/", b"*.c"]))
             continue
-        p, k = rng.choice(allp)
+        nested = [x for x in allp if b"/" in x[0]]
+        p, k = rng.choice(nested) if nested and rng.random() < 0.6 else rng.choice(allp)
         comps = p.split(b"/")
         v = rng.random()
         if v < 0.3:
